@@ -1,5 +1,7 @@
 //! PRNG, hashing, hex and JSON helpers (no dependencies).
 
+#[allow(unused_imports)]
+use crate::prelude::*;
 #[derive(Clone)]
 pub struct Rng(pub u64);
 
